@@ -21,7 +21,7 @@ def I(n):
 
 def std_facts(**kw):
     f = dict(I=0, J=0, A=[0, 0, 0], M={"a": 0}, P=sub(N=0), AP=[sub(), sub()], MS={"a": ""}, MI={1: 0},
-             AS=["x", "y"], AF=[0.5, 1.5])
+             AS=["x", "y"], AF=[0.5, 1.5], AA=[[0, 0], [0, 0]])
     f.update(kw.pop("F", {}))
     st = [["F", fact(**f)], ["N", leaf("int64", kw.pop("N", 0))], ["K", leaf("int64", 0)],
           ["J", jtree(kw.pop("J", {"n": 0, "o": {"n": 0}, "a": [0, 1]}))]]
